@@ -74,6 +74,7 @@ def prop_C18(run):
 def prop_C11(run):
     import rules_tab
     rules_tab.tab_fmt(run)
+    rules_tab.fmt_profile(run)
     # the validators the dispatch relies on must be the ones the driver really applies
     pof = run.anchor("TAB-fmt", "driver::parse_output_format")
     if pof:
@@ -183,6 +184,13 @@ def main():
         PROPS[a.prop](run)
     except mir.AnchorError as e:
         run.violation("ANCHOR", "ANCHOR|" + str(e), "-", "mechanism not found: %s" % e)
+    except Exception as e:
+        # fail closed: a construct the rules cannot digest is not a pass.  (Never happens on the audited tree;
+        # on a changed tree it means the code no longer has the shape the rule was written for.)
+        tb = traceback.extract_tb(sys.exc_info()[2])
+        where = "%s:%d in %s" % (os.path.basename(tb[-1].filename), tb[-1].lineno, tb[-1].name)
+        run.violation("INTERNAL", "INTERNAL|%s|%s" % (tb[-1].name, type(e).__name__), "-",
+                      "the analysis could not digest the code it is anchored in (%s: %s at %s); the property is not shown to hold" % (type(e).__name__, e, where))
     if a.replay:
         with open(a.replay) as fh:
             rp = json.load(fh)
